@@ -291,9 +291,9 @@ func popClock(label string) uint64 {
 }
 
 func ClockNow() time.Time {
+	ns := popClock("ns")
 	sec := popClock("sec")
-	frac := popClock("frac")
-	return time.Unix(int64(sec), int64(frac))
+	return time.Unix(int64(sec), int64(ns%1000000000))
 }
 
 func ClockNano() uint64 { return popClock("nano") }
